@@ -21,11 +21,14 @@ def gen_cases(chk, n, rules=None, families=None, label='count', tweak=None):
         rule = rng.choice(rules) if rules else None
         o = cd.gen_options(rng, rule=rule)
         fam = rng.choice(families) if families else None
+        if fam == 'tinyvote':
+            pr = rng.choice([1, 1, 2])
+            o = dict(rule=rng.choice(['wigm', 'wigm', 'meek', 'warren']), arithmetic='guarded', precision=pr, guard=rng.choice([1, 2]))
         eq = cd.exact_quota_params(o) if fam == 'exactquota' else None
         if fam == 'exactquota':
             e = cd.gen_exact_quota(rng, *eq) if eq else cd.gen_election(rng, family='nearquota')
         else:
-            e = cd.gen_election(rng, family=fam)
+            e = cd.gen_tinyvote(rng, o['precision']) if fam == 'tinyvote' else cd.gen_election(rng, family=fam)
         if o['rule'] == 'mpls':
             k = rng.random()
             if k < 0.35: e = cd.gen_writein_election(rng)
